@@ -269,6 +269,9 @@ def _r11_2(ctx, P):
         # the per-argument counts differ although the totals of distinct names agree
         ([("X", "Y"), ("X",)], [(S("A"),), (S("A"), S("B"))], "raise"),
         ([("X",)], [(S("A"), S("A"))], "raise"),
+        # only an *earlier* argument has the wrong number of axes; the last one and the totals of distinct names fit
+        ([("X", "Y"), ("Y",)], [(S("A"),), (S("B"),)], "raise"),
+        ([("X",), ("X", "Y"), ("Y",)], [(S("A"),), (S("B"),), (S("B"),)], "raise"),
     ]
     ev = Evaluator(P)
     for names, axis, want in cases:
